@@ -96,7 +96,7 @@ H2 = rtf.RTFColumnHeader(text=["C", "D"], border_top=UB)
     r.encoding_service = NS(encode_column_header=lambda text, hdr, w: (seen.append((list(text), hdr.border_top)), ["HROW"])[1])
     doc = NS(rtf_column_header=[H1, H2] if two else [H1], rtf_body=NS(as_colheader=True, col_rel_width=None),
              rtf_page=NS(border_first=PF if has_pf else None, col_width=6.0))
-    page = NS(is_first_page=first, data=None)
+    page = NS(is_first_page=first, data=None, table_attrs=None)
     out = PageRenderer._render_column_headers(r, doc, page)
     if out != ["HROW"] * (2 if two else 1) or len(seen) != (2 if two else 1):
         return False
